@@ -96,7 +96,12 @@ def mkCache (P : Params V) (vars : List VarId) (c : Cache.Cache Nat Bool) : Cach
   if c.keys.isEmpty && c.trie.isEmptyNode && c.flat.isEmpty then { c with keys := keyList P vars } else c
 
 /-- `BinaryOperator._required_variables_from_child_` for the LEFT / RIGHT child of an AND. -/
-def reqLeftOfAnd (rightVars : List VarId) (req : ReqFn) : ReqFn := fun wt => rightVars ++ req wt
+def reqLeftOfAnd (rightVars : List VarId) (req : ReqFn) : ReqFn := fun wt =>
+  match wt with
+  -- a TRUE output of the left operand does not decide the conjunction: what the parent needs when the conjunction turns
+  -- out false is needed as well (repair R35)
+  | some true => rightVars ++ req (some true) ++ req (some false)
+  | _ => rightVars ++ req wt
 def reqRightOfAnd (req : ReqFn) : ReqFn := fun wt => req wt
 
 /-- `OR._required_variables_from_child_` for the LEFT / RIGHT child of an ElseIf. -/
